@@ -22,14 +22,14 @@ EPS = np.finfo(float).eps
 K = 32.0
 
 
-def check_profile(rname, wv, a, b, res=None):
+def check_profile(rname, wv, a, b, res=None, num=None):
     mesh = space.mesh_from_widths(wv, -1.0)
     n = len(wv)
     model = space.convection.model(1.0)
     out = []
     u = a + b * mesh.xc
     bcs = ({"type": "per"}, {"type": "per"}) if b == 0 else ({"type": "dirichlet", "prim": [np.float64(a)]}, {"type": "dirichlet", "prim": [np.float64(a)]})
-    disc = space.modeldisc.fvm(model, mesh, space.recon(rname), bcL=bcs[0], bcR=bcs[1])
+    disc = space.modeldisc.fvm(model, mesh, num if num is not None else space.recon(rname), bcL=bcs[0], bcR=bcs[1])
     with np.errstate(all="ignore"):
         disc.rhs(space.field.fdata(model, mesh, [u.copy()]))
     pL, pR = np.asarray(disc.pL[0], float), np.asarray(disc.pR[0], float)
@@ -64,13 +64,13 @@ def check_profile(rname, wv, a, b, res=None):
     return out
 
 
-def check_seam(rname, wv, a, b, res=None):
+def check_seam(rname, wv, a, b, res=None, num=None):
     """the periodic seam is not a boundary: data that are linear across it (in the unwrapped coordinate) are reproduced exactly at the seam face"""
     mesh = space.mesh_from_widths(wv, -1.0)
     n = len(wv)
     L = float(mesh.xf[-1] - mesh.xf[0])
     model = space.convection.model(1.0)
-    disc = space.modeldisc.fvm(model, mesh, space.recon(rname))
+    disc = space.modeldisc.fvm(model, mesh, num if num is not None else space.recon(rname))
     out = []
     exact = a + b * mesh.xf[0]
     sc = abs(a) + abs(b) * (np.abs(mesh.xf).max() + L)
@@ -239,17 +239,35 @@ def check_2d(rname, nx, ny, res=None):
 def shard_profiles(arg):
     rname, n = arg
     res = core.Res()
+    # ONE reconstruction object serves every mesh of the shard (all have n cells, different faces), as in a user's loop over meshes:
+    # geometry remembered from a previous mesh must not leak into the next one.  A replay uses a fresh object; if a violation only shows
+    # with the shared object the shard-level re-execution below reports it.
+    shared = space.recon(rname)
+    hist = []
     for wv0 in space.width_vectors(n):
       for scale, profiles in ((1.0, list(itertools.product((0.0, 2.0, 5.0), (0.0, 1.0, -3.0)))), (0.3, [(0.1, 0.7), (-1.3, -0.9)])):
         wv = tuple(scale * x for x in wv0)      # 0.3: faces, centres and values are not dyadic, every operation rounds
         for a, b in profiles:
             if b != 0:
                 res.nontrivial += 1
-            for s, w in check_profile(rname, wv, a, b, res):
-                res.violation(s, w, {"kind": "profile", "recon": rname, "widths": list(wv), "a": a, "b": b})
+            v = check_profile(rname, wv, a, b, res, num=shared)
+            if v and not check_profile(rname, wv, a, b):
+                for s, w in v:
+                    res.violation(s.replace("C11/", "C11/reused-reconstruction-object/", 1), w + " [only when the reconstruction object has served another mesh before: %r]" % (hist[-1:],),
+                                  {"kind": "reuse", "recon": rname, "n": n})
+            else:
+                for s, w in v:
+                    res.violation(s, w, {"kind": "profile", "recon": rname, "widths": list(wv), "a": a, "b": b})
+            hist.append(wv)
             if b != 0 and n >= 3 and rname != "extrapol1":
-                for s, w in check_seam(rname, wv, a, b, res):
-                    res.violation(s, w, {"kind": "seam", "recon": rname, "widths": list(wv), "a": a, "b": b})
+                v = check_seam(rname, wv, a, b, res, num=shared)
+                if v and not check_seam(rname, wv, a, b):
+                    for s, w in v:
+                        res.violation(s.replace("C11/", "C11/reused-reconstruction-object/", 1), w + " [only when the reconstruction object has served another mesh before]",
+                                      {"kind": "reuse", "recon": rname, "n": n})
+                else:
+                    for s, w in v:
+                        res.violation(s, w, {"kind": "seam", "recon": rname, "widths": list(wv), "a": a, "b": b})
     res.sample({"recon": rname, "widths": list(space.width_vectors(n)[len(space.width_vectors(n)) // 2]), "profile": "2 - 3 x"}, cap=1)
     return res
 
@@ -298,6 +316,9 @@ def run(ctx):
 
 def replay(case):
     k = case["kind"]
+    if k == "reuse":
+        r = shard_profiles((case["recon"], case["n"]))
+        return [(v["site"], v["what"]) for v in r.viols if "/reused-reconstruction-object/" in v["site"]]
     if k == "profile":
         return check_profile(case["recon"], tuple(case["widths"]), case["a"], case["b"])
     if k == "seam":
